@@ -701,7 +701,7 @@ def _restarts_for_contents(sess, contents, algo, original_start_f, context, max_
 # case runners
 # ---------------------------------------------------------------------------
 def _fresh_dir():
-    base = os.environ.get('BIOMON_WORKDIR') or os.getcwd()
+    base = os.environ.get('BIOMON_WORKDIR') or tempfile.gettempdir()  # replay: outside /verif
     d = tempfile.mkdtemp(prefix='c15_', dir=base)
     os.chdir(d)
     return d
